@@ -246,3 +246,13 @@ CHECKS['C12'] = dict(
     jobs=[dict(name='scoping', harness='c12_manifest.cc', units=_PARSE_UNITS, defines=['MODE_SCOPING'], reach=['single-file', 'include', 'subninja', 'crlf', 'continuation'], bounds='2^8 binding-placement choices x {none, include, subninja} x {LF, CRLF} x continuation'),
           dict(name='kinds', harness='c12_manifest.cc', units=_PARSE_UNITS, defines=['MODE_KINDS'], reach=['kinds'], bounds='6 self-referencing phony forms x {LF, CRLF}, one statement mixing every input/output kind'),
           dict(name='reject', harness='c12_manifest.cc', units=_PARSE_UNITS, defines=['MODE_REJECT'], reach=['rejected', 'accepted'], bounds='16 ill-formed and 6 well-formed manifests x {LF, CRLF}')])
+
+CHECKS['C19'] = dict(
+    title='dry runs observe without disturbing, and tell the truth',
+    level_text='From a fully built tree perturbed by symbolic edits/deletions (and optionally files left over by earlier failed builds) the whole real pipeline is run with BuildConfig::dry_run (the real DryRunCommandRunner, logs loaded but not opened for writing as in NinjaMain): the harness asserts that no command reaches the runner and that the snapshot of every file (existence, mtime, content) and the size of both logs is unchanged; then the real build is run from the same state and the set of commands it starts must be a subset of (without restat rules: equal to) the commands the dry run announced. A second job executes EncodeJSONString on every byte string up to the bound and asserts RFC 8259 validity and round trip.',
+    level_note='Trusted base as C01. The read-only tools of ninja.cc (-t commands, inputs, query, targets, rules, graph, compdb, deps, missingdeps) are not driven: only their JSON string encoder and the dry-run path are encoded; directory creation by MakeDirs under -n is not part of the snapshot (the property lists sources, outputs, depfiles and logs).',
+    assumptions=_PIPE_ASSUME + ['the -t tools themselves are outside the encoding; only EncodeJSONString is'],
+    jobs=_mode_jobs('MODE_DRYRUN', [0, 2, 5], reach=('compared', 'nothing-to-do'), bounds='fully built tree + symbolic edits/deletions, symbolic target subset, -j in {1,2}; dry run then real run') +
+         _mode_jobs('MODE_DRYRUN', [2, 1], extra=['LEFTOVERS'], suffix='_leftovers', reach=('compared',), bounds='the same with a stale depfile / kept response file possibly present') +
+         [dict(name='json', harness='c19_json.cc', units=['json'], stubs=False, reach=['escaped', 'verbatim'],
+               quick=dict(defines=['VERIF_N=3'], bounds='every NUL-free byte string of length 0..3'), thorough=dict(defines=['VERIF_N=5'], bounds='every NUL-free byte string of length 0..5', limits=dict(time=3000, max_paths=3000000)))])
